@@ -205,7 +205,7 @@ func (r ratioRec) add(k string, v float64) {
 }
 
 func checkCapPair(c capPairCase) ev.Outcome {
-	o := ev.Outcome{}
+	o := ev.Outcome{Counts: map[string]int{}}
 	if !c.A.ok() || !c.B.ok() || len(c.P) > 4 {
 		o.Skip = true
 		return o
@@ -220,6 +220,12 @@ func checkCapPair(c capPairCase) ev.Outcome {
 	ca, cb := c.A.C.Pt(), c.B.C.Pt()
 	pfx := fmt.Sprintf("cap: a={%v r2=%.17g} b={%v r2=%.17g}: ", ca.Vector, c.A.R, cb.Vector, c.B.R)
 	fail := func(f string, args ...any) ev.Outcome { o.Err = pfx + fmt.Sprintf(f, args...); return o }
+	failAs := func(finding, f string, args ...any) ev.Outcome {
+		o.Err, o.Finding, o.NonTrivial = pfx+fmt.Sprintf(f, args...), finding, true
+		return o
+	}
+	farProbes := 0
+	defer func() { o.Counts["addcap_far_rim_probes"] += farProbes }() // the map is shared with the returned copy
 	rat := ratioRec{}
 	o.Ratios = rat
 
@@ -486,6 +492,38 @@ func checkCapPair(c capPairCase) ev.Outcome {
 		rat.add("AddCap: uncovered chord length / δ", short/d)
 		if short > d {
 			return fail("%s = {r2=%.17g} does not contain the other cap: short by %.6g (δ=%.3g)", name, rr, short, d)
+		}
+		// Strict membership at the far rim. AddCap "rounds up the distance to ensure
+		// that the cap is actually contained" (its own comment): the point of the
+		// other cap farthest from this centre, and its neighbours, if the other cap
+		// says it contains them (ContainsPoint), must be contained by the result.
+		// No tolerance: both sides are the library's own membership predicate.
+		if !r.IsFull() && !y.IsFull() {
+			xc, yc := x.Center(), y.Center()
+			far := yc
+			if xc != yc && xc.Dot(yc.Vector) > -0.999999 {
+				far = s2.InterpolateAtDistance(xc.Distance(yc)+y.Radius(), xc, yc)
+			}
+			cands := []s2.Point{far}
+			for _, pp := range c.P {
+				// rim points of the other cap in directions close to the far one
+				dir := s2.Point{Vector: far.Add(pp.Pt().Mul(1e-9)).Normalize()}
+				if dir != yc && dir.Dot(yc.Vector) > -0.999999 {
+					cands = append(cands, s2.InterpolateAtDistance(y.Radius(), yc, dir))
+				}
+			}
+			for _, q := range cands {
+				for step := 0; step < 4 && !y.ContainsPoint(q); step++ {
+					q = s2.Point{Vector: q.Add(yc.Mul(float64(step+1) * 1e-16 * math.Max(1e-300, float64(y.Radius())))).Normalize()}
+				}
+				if !q.IsUnit() || !y.ContainsPoint(q) {
+					continue
+				}
+				farProbes++
+				if !r.ContainsPoint(q) {
+					return failAs("addcap-excludes-operand-point", "%s = {r2=%.17g} does not contain %v, which the added cap {centre %v r2=%.17g} contains (ContainsPoint): squared chord from the centre %.17g", name, rr, q, yc, sy.R, float64(s2.ChordAngleBetweenPoints(xc, q)))
+				}
+			}
 		}
 		ex := f64(hp.Sub(have, hp.Max(need, hx.chord())))
 		rat.add("AddCap: excess radius chord length / δ", ex/d)
